@@ -131,7 +131,7 @@ def run_shard(binpath, mode, seed, tier, n, outdir, replay=None, extra=()):
 
 
 def is_op(l):
-    return l.startswith(("session", "round", "restart", "crash"))
+    return l.startswith(("session", "round", "restart", "crash", "shutdown"))
 
 
 def analyse(sh, values_only_after_crash=False):
@@ -202,6 +202,7 @@ def classify_restart_difference(ctx, case_text, tag):
     # the run without restarts: strip the restart lines and ask the model again
     nr = [l for l in ops if l != "restart"]
     nr_ops = os.path.join(d, "ops_norestart.txt")
+    nr = [l for l in nr if l != "shutdown"]
     open(nr_ops, "w").write("\n".join(nr))
     ma = {}
     for name, args in (("asis", []), ("desc", ["desc"])):
@@ -234,7 +235,8 @@ def collect(ctx, mode, n_quick, n_thorough, extra=()):
     if os.environ.get("VERIF_PERSIST_BIN"):      # sensitivity runs: a harness prebuilt against a private, mutated copy of /repo
         ok, out, dt, binpath = True, "", 0.0, os.environ["VERIF_PERSIST_BIN"]
     else:
-        ok, out, dt, binpath = vlib.cargo_build("persist")
+        # thorough tier: one binary with the real backends compiled in (RocksDB sample), used for every mode
+        ok, out, dt, binpath = vlib.cargo_build("persist", "" if ctx.quick() else "backends")
     ctx.notes.append(f"cargo build persist {dt:.1f}s" + (" (VERIF_PERSIST_BIN)" if os.environ.get("VERIF_PERSIST_BIN") else ""))
     res = vlib.Result()
     if not ok:
@@ -302,29 +304,54 @@ def run(ctx):
     for a in an:
         for r in a["impl_fail_unexplained"]:
             res.oracle_failures.append({"sig": "C07:value-unexplained", "desc": f"{r['line']} -> {r['impl']} expected {r['expected']} (not predicted by the model, not repaired by a known-finding toggle)", "case": r["case"]})
+    if not ctx.replay:
+        f8_scenario(ctx, res)
     if not ctx.quick() and not ctx.replay:
         rocks(ctx, res, "c07")
     return res
 
 
-def rocks(ctx, res, which):
-    """thorough tier: a sample on the real RocksDB backend, incl. kill -9 (supporting validation only)"""
-    ok, out, dt, binpath = vlib.cargo_build("persist_rocks", "backends")
-    ctx.notes.append(f"cargo build persist_rocks (backends) {dt:.1f}s")
-    if not ok:
-        ctx.notes.append("RocksDB sample skipped: build failed: " + out[-400:])
-        return
-    d = os.path.join(ctx.work, "rocks")
+def f8_scenario(ctx, res):
+    """DESIGN F8: the one concurrent scenario of this check (everything else is sequential): a session opened while a
+    reader is still publishing.  Reported under its own signature; disappears when the F5 reordering is applied."""
+    binpath = os.environ.get("VERIF_PERSIST_BIN") or os.path.join(vlib.HARNESS, "target", "release", "persist")
+    d = os.path.join(ctx.work, "f8")
     os.makedirs(d, exist_ok=True)
-    p = subprocess.run([binpath, "--seed", str(ctx.seed), "--tier", ctx.tier, "--out", d, "--mode", which], stdout=subprocess.PIPE, stderr=subprocess.STDOUT, text=True, timeout=3600)
+    p = subprocess.run([binpath, "--mode", "f8", "--out", d], stdout=subprocess.PIPE, stderr=subprocess.STDOUT, text=True, timeout=300)
     if p.returncode != 0:
-        ctx.notes.append(f"RocksDB sample: harness exited {p.returncode}: {p.stdout[-500:]}")
+        res.disagreements.append({"harness-error": f"f8 scenario exited {p.returncode}: {p.stdout[-500:]}"})
         return
     rep = json.load(open(os.path.join(d, "report.json")))
-    res.extra["rocksdb_supporting_validation"] = {k: rep[k] for k in ("evaluations", "distribution")}
     res.evaluations += rep["evaluations"]
+    for k, v in rep["distribution"].items(): res.distribution[k] = v
     for f in rep["oracle_failures"]:
         res.oracle_failures.append(f)
+
+
+def rocks(ctx, res, which):
+    """thorough tier: a sample on the real RocksDB backend, incl. kill -9 (supporting validation only)"""
+    binpath = os.environ.get("VERIF_PERSIST_BIN") or os.path.join(vlib.HARNESS, "target", "release", "persist")
+    def one(i):
+        d = os.path.join(ctx.work, f"rocks-{i}")
+        os.makedirs(d, exist_ok=True)
+        p = subprocess.run([binpath, "--seed", str(ctx.seed * 1000 + 500 + i), "--tier", ctx.tier, "--out", d, "--mode", "rocks-" + which, "--n", "12"],
+                           stdout=subprocess.PIPE, stderr=subprocess.STDOUT, text=True, timeout=3000)
+        if p.returncode != 0:
+            return {"error": f"harness exited {p.returncode}: {p.stdout[-500:]}"}
+        return json.load(open(os.path.join(d, "report.json")))
+    reps = vlib.shard_map(one, list(range(8)), 8)
+    agg = {"evaluations": 0, "distribution": {}}
+    for rep in reps:
+        if "error" in rep:
+            ctx.notes.append("RocksDB sample: " + rep["error"])
+            res.disagreements.append({"harness-error": rep["error"]})
+            continue
+        agg["evaluations"] += rep["evaluations"]
+        for k, v in rep["distribution"].items(): agg["distribution"][k] = agg["distribution"].get(k, 0) + v
+        for f in rep["oracle_failures"]:
+            res.oracle_failures.append(f)
+    res.extra["rocksdb_supporting_validation"] = agg
+    res.evaluations += agg["evaluations"]
 
 
 def search(ctx, res):
